@@ -16,15 +16,12 @@ import vlib
 
 ENV = {"ASAN_OPTIONS": "detect_leaks=0:abort_on_error=0", "UBSAN_OPTIONS": "print_stacktrace=1"}
 MSEL = list(range(23))
-FLAGS = ["delalias", "dotparent"]   # repairs proposed (C15-13, C15-14) but not necessarily in the tree
+FLAGS = []   # no repair is pending: everything proposed up to C15-14 is in the frozen tree
 
 # ---------------------------------------------------------------- witnesses
 # one per repair flag; the implementation's output on the witness must equal
 # the model's with the flag off (defect present) or on (repaired)
-WITNESS = {
-    "delalias": ["A 0 - x 15 0 0 - - 1", "L - b x 0", "L - a b 0", "D b 8"],
-    "dotparent": ["A 0 - ab 15 0 0 - - 1", "A 0 .ab x 5 0 0 ab - 0", "L .ab y ab 0"],
-}
+WITNESS = {}
 # regression witnesses for the defects repaired in /repo (fix: commits d815d97 .. 71a6c5d, fb2ee00):
 # run like every other sequence; they must now agree with the model and satisfy the property text
 FIXED_WITNESS = {
@@ -38,6 +35,10 @@ FIXED_WITNESS = {
     "parent": ["A 0 - p 15 0 0 - - 1", "A 0 p c 15 0 0 - - 2", "D p/c 0"],
     "malias": ["A 0 - p 15 0 0 - - 1", "A 0 - x 15 0 0 - - 2", "L p al x 0", "Q p 22 0", "D p 0"],
     "alias-loop": ["L - b c 0", "L - c b 0", "L - a b 0", "R a zz 0"],
+    "alias-intermediate": ["A 0 - x 15 0 0 - - 1", "L - b x 0", "L - a b 0", "D b 8"],
+    "alias-intermediate-readd": ["A 0 - x 15 0 0 - - 1", "L - b x 0", "L - a b 0", "D b 8", "A 0 - b 17 0 0 - - 0"],
+    "dotparent": ["A 0 - ab 15 0 0 - - 1", "A 0 .ab x 5 0 0 ab - 0", "L .ab y ab 0", "Q ab 22 0", "D .ab/x 0"],
+    "affix-resort": ["A 0 - pz 15 0 0 - - 1", "A 0 - a 15 1 0 - - 2", "A 0 - b 15 1 0 - - 3", "X 1 p ~", "Q - 22 0", "X 1 q ~", "Q - 22 0", "X 1 a ~", "Q - 22 0"],
     "alias-stale": ["A 0 - x 15 0 0 - - 1", "L - al x 0", "D x 8", "A 0 - x 15 0 0 - - 1"],
     "alias-chain-order": ["L - b x 0", "L - a b 0", "A 0 - x 15 0 0 - - 1"],
     "deref-force-alias": ["A 0 - x 15 0 0 - - 1", "L - al x 0", "A 0 - z 3 0 0 x x,- 0", "D x 12", "Q - 21 0"],
@@ -51,8 +52,6 @@ FIXED_WITNESS = {
 # open defects: the model reproduces them faithfully (model == implementation) and the
 # specification check flags them
 EXTRA_WITNESS = {
-    "alias-intermediate": ["A 0 - x 15 0 0 - - 1", "L - b x 0", "L - a b 0", "D b 8"],
-    "alias-intermediate-readd": ["A 0 - x 15 0 0 - - 1", "L - b x 0", "L - a b 0", "D b 8", "A 0 - b 17 0 0 - - 0"],
     "alias-cache": ["A 0 - p 15 0 0 - - 1", "L - al p/m 0", "Q - 22 0", "A 1 p m 15 0 0 - - 2", "Q - 22 0"],
     "alias-cache-del": ["A 0 - p 15 0 0 - - 1", "A 1 p m 15 0 0 - - 2", "L - al p/m 0", "Q - 22 0", "D p/m 8", "Q - 22 0"],
     "affix-alias": ["A 0 - x 15 1 0 - - 1", "L - al x 0", "X 1 p ~"],
@@ -183,7 +182,7 @@ def spec_check(op, res, dump_lines):
                 bad.append(("list", "listed name %s cannot be looked up" % nme))
         # nentries agreement (parent may be an alias: use the model-independent row when present)
         row = d["n"].get(par)
-        if row is not None and int(t[2]) in MSEL:
+        if row is not None and int(t[2]) in MSEL and (par == "-" or par in by):
             cnt = int(row[MSEL.index(int(t[2])) * 4 + int(t[3])])
             if cnt != len(names):
                 bad.append(("list", "gd_entry_list has %d names, gd_nentries says %d" % (len(names), cnt)))
@@ -533,8 +532,27 @@ def main():
         n = rng.choice([10, 20, 30, 40, 60, 100, 200]) if i % 5 else rng.randint(10, 200)
         ops = gen_sequence(rng, n, alias_loops=(i % 17 == 0))
         if i % 9 == 0:
-            ops.append("X 1 %s %s" % (rng.choice(["p", "pre_", "~"]), rng.choice(["~", "s", "_x"])))
-            ops += ["Q - 22 0", "Q - 22 1", "Q %s 22 0" % rng.choice(TOP)]
+            # a series of affix changes (replacements of equal length change the order but not the lengths)
+            for _ in range(rng.randint(1, 4)):
+                ops.append("X 1 %s %s" % (rng.choice(["p", "q", "a", "z", "pre_", "~"]), rng.choice(["~", "~", "s", "t", "_x"])))
+                ops += ["Q - 22 0", "Q - %d %d" % (rng.choice([22, 15, 19, 20]), rng.choice([0, 1])), "Q %s 22 0" % rng.choice(TOP)]
+        elif i % 3 == 1:
+            # operations the model does not cover (gd_include, gd_include_affix, gd_uninclude, gd_alter_spec,
+            # gd_fragment_namespace): run on the library only and judged against the property text
+            ops += ["Q - 22 0", "Q - 15 0"]
+            for _ in range(rng.randint(1, 5)):
+                r = rng.random()
+                if r < 0.3:
+                    ops.append("I %s %d" % (rng.choice(["inc1", "inc2"]), rng.choice([0, 1])))
+                elif r < 0.45:
+                    ops.append("J %s %d %s %s" % (rng.choice(["inc1", "inc2"]), rng.choice([0, 1]), rng.choice(["P_", "~"]), rng.choice(["_S", "~"])))
+                elif r < 0.75:
+                    ops.append("U %d" % rng.choice([1, 1, 2, 3]))
+                elif r < 0.9:
+                    ops.append("S - %s %d" % (rng.choice(TOP), rng.randint(1, 9)))
+                else:
+                    ops.append("N %d %s" % (rng.choice([1, 2]), rng.choice(["ns", "n.s", "~"])))
+                ops += ["Q - 22 0", "Q - %d %d" % (rng.choice([15, 20, 21, 19]), rng.choice([0, 1]))]
         seqs.append(ops)
     for k, w in list(WITNESS.items()) + list(EXTRA_WITNESS.items()) + list(FIXED_WITNESS.items()):
         seqs.append(list(w))
@@ -553,11 +571,17 @@ def main():
                 cut = i; why = "dangling-alias"; break
         irc, iout = run_impl(ops[:cut])
         isteps = strip_i(parse_steps(iout))
+        tail = None
+        if why == "unmodelled" and ops[cut][0] in "UIJSN":
+            bits_ok = cut == 0 or (msteps[cut - 1][2] and all(v == "1" for v in msteps[cut - 1][2].values()))
+            if bits_ok:
+                trc, tout = run_impl(ops)
+                tail = (trc, strip_i(parse_steps(tout)), tout[-1500:])
         crash = None
         if why and why != "unmodelled":
             crc, cout = run_impl(ops[:cut + 1], unsafe=(why == "dangling-alias"))
             crash = (crc, cout[-1500:])
-        return ops, msteps, cut, why, irc, isteps, iout, crash
+        return ops, msteps, cut, why, irc, isteps, iout, crash, tail
 
     results = []
     with cf.ThreadPoolExecutor(max_workers=vlib.NPROC) as ex:
@@ -569,7 +593,7 @@ def main():
     kinds = {}
     viol = {}      # key -> (desc, replay)
     modelbad = []
-    for ops, msteps, cut, why, irc, isteps, iout, crash in results:
+    for ops, msteps, cut, why, irc, isteps, iout, crash, tail in results:
         first_bad = {}
         corrupt = False
         desync = False
@@ -627,6 +651,40 @@ def main():
         else:
             if irc != 0 or len(isteps) < cut:
                 modelbad.append((ops[:cut], len(isteps), ("(model continues)", []), ("harness died rc=%d: %s" % (irc, iout[-800:]), []), True))
+        if tail is not None:
+            # the part of the sequence that is outside the model: property text only
+            trc, tsteps, ttail = tail
+            tprev = tsteps[cut - 1][1] if 0 < cut <= len(tsteps) else None
+            tfirst = {}
+            lastmut = cut
+            for i in range(cut, len(tsteps)):
+                total_steps += 1
+                res, dl = tsteps[i]
+                kinds[ops[i][0]] = kinds.get(ops[i][0], 0) + 1
+                if ops[i][0] != "Q":
+                    lastmut = i
+                for kind, msg in spec_check(ops[i], res, dl):
+                    if kind in tfirst:
+                        continue
+                    tfirst[kind] = i
+                    # gd_uninclude can leave the table in pieces: whatever follows one is its consequence
+                    lab = "U" if any(o[0] == "U" for o in ops[cut:lastmut + 1]) else op_label(ops[lastmut])
+                    key = "%s/%s" % (kind, lab)
+                    if key not in viol:
+                        viol[key] = ("after %s (step %d of a %d-step sequence): %s" % (ops[lastmut], lastmut, len(ops), msg),
+                                     {"kind": "impl-vs-spec", "ops": ops[:i + 1], "culprit_step": lastmut, "observed_step": i,
+                                      "impl_result": res, "impl_dump": dl, "message": msg,
+                                      "how": "feed ops to harness/C15/nametab <scratchdir> (ASan build)"})
+                if any(k in ("unique", "sorted") for k in tfirst):
+                    break
+                tprev = dl
+            if trc != 0 and len(tsteps) < len(ops):
+                j = len(tsteps)
+                key = "crash/tail/%s" % ("U" if any(o[0] == "U" for o in ops[cut:j + 1]) else op_label(ops[j]))
+                if key not in viol:
+                    viol[key] = ("%s makes the library crash: %s" % (ops[j], " ".join(re.findall(r"(?:ERROR: AddressSanitizer: [^\n]*|SEGV[^\n]*|runtime error[^\n]*)", ttail)[:2]) or "process died"),
+                                 {"kind": "impl-vs-spec", "ops": ops[:j + 1], "impl_tail": ttail,
+                                  "how": "feed ops to harness/C15/nametab <scratchdir> (ASan build)"})
         if why and why != "unmodelled" and crash is not None:
             crc, cout = crash
             key = "crash/%s/%s" % (why.replace(" ", ""), op_label(ops[cut]))
@@ -638,10 +696,7 @@ def main():
                 modelbad.append((ops[:cut + 1], cut, ("> " + why, []), ("no crash", []), False))
 
     # behaviour outside the model, judged against the property text directly
-    DIRECT = {
-        "dotparent/A.madd": ["A 0 - ab 15 0 0 - - 1", "A 0 .ab x 5 0 0 ab - 0"],
-        "dotparent/L.madd": ["A 0 - ab 15 0 0 - - 1", "L .ab y ab 0"],
-    }
+    DIRECT = {}
     for dkey, dops in DIRECT.items():
         drc, dout = run_impl(dops)
         dsteps = strip_i(parse_steps(dout))
